@@ -325,8 +325,10 @@ package flow
 //@   ensures[identical-rules-are-equal] newRule != nil && sameButThreshold(r, newRule) && r.Threshold == newRule.Threshold ==> res
 //@   modifies nothing
 
+// (under C02 too: a rule that takes over the statistic of a rule reading another resource's window meters the wrong
+// resource — whether two rules may share a statistic is part of 'counts the tokens of the resource the rule names')
 //@ func (r *Rule) isStatReusable(newRule) res
-//@   props C14
+//@   props C14, C02
 //@   requires r != nil
 //@   ensures[def] res <==> statReusable(r, newRule)
 //@   modifies nothing
